@@ -41,7 +41,7 @@ TECHNIQUE = 'runtime monitoring: event-trace oracle (parse-entry probes + audit 
 XS = 'http://www.w3.org/2001/XMLSchema'
 MARK = 'ZZEXPANDEDMARKERZZ'
 MODES = ('always', 'remote', 'nonlocal', 'never')
-KINDS = ('str', 'bytes', 'StringIO', 'BytesIO', 'text_file', 'binary_file', 'raw_nonseekable', 'buffered_nonseekable',
+KINDS = ('xmldocument_parse', 'str', 'bytes', 'StringIO', 'BytesIO', 'text_file', 'binary_file', 'raw_nonseekable', 'buffered_nonseekable',
          'path', 'file_url', 'remote_url', 'remote_url_nopath', 'remote_url_query', 'remote_url_port', 'remote_url_root', 'remote_response',
          'remote_url_two_faced', 'remote_url_two_faced_wrapped')
 # remote URLs with an empty path component (the base URL of such a resource is not a directory URL)
@@ -223,6 +223,8 @@ def run_cell(xmlschema, probes_counter, fx_dir, mode, role, kind, pname, payload
     handles = []
 
     def make_source(k):
+        if k == 'xmldocument_parse':
+            return text if encoding == 'utf-8' and role == 'instance' else None
         if k == 'str':
             return text if encoding in ('utf-8',) else None
         if k == 'bytes':
@@ -283,7 +285,15 @@ def run_cell(xmlschema, probes_counter, fx_dir, mode, role, kind, pname, payload
                 bkw['base_url'] = REMOTE
             elif base == 'local':
                 bkw['base_url'] = fx_dir
-            if role == 'instance':
+            if role == 'instance' and kind == 'xmldocument_parse':
+                # a document object built from a clean document with the defuse mode, then told to parse the payload:
+                # the options of the object go with it
+                doc = xmlschema.XmlDocument(document('instance', '', '', 'utf-8')[0], schema=INSTANCE_XSD, validation='skip',
+                                            defuse=mode, opener=opener, **bkw)
+                probes_counter.reset()       # the clean document and the schema were parsed legitimately
+                doc.parse(src)
+                result['tree'] = canon(doc.root)
+            elif role == 'instance':
                 r = xmlschema.XMLResource(src, defuse=mode, opener=opener, lazy=lazy, **bkw)
                 if lazy:
                     result['tree'] = b''.join(canon(e) for e in r.iter_depth())
